@@ -59,7 +59,7 @@ func VerifRun_C04b() {
 		if !vs.ValidFlag || len(vs.StrVec) == 0 {
 			continue
 		}
-		vs2 := vs
+		vs2 := vpCopyVS(vs)
 		for _, d := range p.FindVarDefineInfo(file, &vs) {
 			if x, okx := c04text(src, d.Loc.StartLine, d.Loc.StartColumn, d.Loc.EndColumn); !okx || (x != o.name && !(o.name == "self" || x == "self")) {
 				if c06tainted(r, o.name) || r.isColonReceiver(o.name) {
